@@ -27,6 +27,7 @@ type Packet struct {
 	Data  []byte
 	Kind  string // IH RH ID RD DATA
 	AtNow time.Duration
+	Gen   int // generation of the sender when the packet was emitted
 }
 
 type Node struct {
@@ -61,7 +62,10 @@ type Lab struct {
 	seq     int
 	Timing  Timing
 	Trace   []string
-	cancels []context.CancelFunc
+	// GhostDelivered lists packets of a pre-restart incarnation delivered after the restart.
+	GhostDelivered []string
+	cancels        []context.CancelFunc
+	closing bool
 }
 
 func New(x *vrt.Exec, t Timing, seed uint64) *Lab {
@@ -75,6 +79,7 @@ func New(x *vrt.Exec, t Timing, seed uint64) *Lab {
 }
 
 func (l *Lab) Close() {
+	l.closing = true
 	for _, cf := range l.cancels {
 		cf()
 	}
@@ -127,6 +132,9 @@ func (l *Lab) Due() {
 
 func (l *Lab) logf(format string, args ...any) {
 	l.Trace = append(l.Trace, fmt.Sprintf(format, args...))
+	if len(l.X.Log) < 4000 {
+		l.X.Logf("t=%v %s", l.X.Now, fmt.Sprintf(format, args...))
+	}
 }
 
 // NewNode creates a channel with the given key and acceptance predicate.
@@ -150,7 +158,7 @@ func (n *Node) build() {
 			}
 			l.Cell.Touch()
 			l.seq++
-			p := &Packet{From: n, Seq: l.seq, Data: append([]byte{}, b...), Kind: kind(b), AtNow: l.X.Now}
+			p := &Packet{From: n, Seq: l.seq, Data: append([]byte{}, b...), Kind: kind(b), AtNow: l.X.Now, Gen: gen}
 			if p.Kind == "DATA" {
 				n.DataSentTo = append(n.DataSentTo, KeyName(n.Ch.RemoteKey()))
 			}
@@ -170,6 +178,8 @@ func (n *Node) build() {
 func (n *Node) Restart() {
 	n.Ch.Close()
 	n.Gen++
+	// the restarted process has no memory of earlier calls
+	n.SendStarted, n.SendReturned, n.SendOK, n.SendErrs = 0, 0, 0, nil
 	n.build()
 	n.lab.logf("restart(%s)", n.Name)
 	n.lab.X.Settle()
@@ -194,7 +204,7 @@ func (l *Lab) StartSend(n *Node, payload string) {
 	vrt.Go("send-"+n.Name, func() {
 		err := ch.Send(ctx, p2p.IOVec{[]byte(payload)})
 		l.Cell.Touch()
-		if gen == n.Gen {
+		if gen == n.Gen && !l.closing {
 			n.SendReturned++
 			if err == nil {
 				n.SendOK++
@@ -214,6 +224,9 @@ func (l *Lab) Deliver(p *Packet, to *Node, keep bool) {
 		l.remove(p)
 	}
 	l.logf("deliver(%s#%d %s -> %s)%s", p.From.Name, p.Seq, p.Kind, to.Name, map[bool]string{true: " [dup]", false: ""}[keep])
+	if p.Gen != p.From.Gen {
+		l.GhostDelivered = append(l.GhostDelivered, p.Kind)
+	}
 	out, err := to.Ch.Deliver(nil, p.Data)
 	l.Cell.Touch()
 	if err == nil && out != nil {
